@@ -2,5 +2,5 @@
    unit, list, prod, sumbool, sumor map to OCaml's; Z, N, positive, nat, Q, string and
    ascii stay the extracted inductive types.  No Extract Constant of our own. *)
 Require Import ExtrOcamlBasic.
-From SMD Require Import Base.Sexp Driver.Common Driver.Main.
-Extraction "model.ml" run_case ds_init show_sexp.
+From SMD Require Import Base.Sexp Driver.Common Driver.Main Driver.Explain.
+Extraction "model.ml" run_case ds_init show_sexp explain_case.
